@@ -134,6 +134,7 @@ type storeFS struct {
 	removeFails bool
 	// openFailOnce: the next Open (for reading) fails with an error that is not "does not exist"
 	openFailOnce bool
+	openFailSkip int // (with openFailOnce) this many Opens go through first
 }
 
 func (s *storeFS) event(what string) {
@@ -231,7 +232,12 @@ type storeMin struct{ *storeFS }
 func (s *storeFS) Open(name string) (hackpadfs.File, error) {
 	s.mu.Lock()
 	failNow := s.openFailOnce
-	s.openFailOnce = false
+	if failNow && s.openFailSkip > 0 {
+		s.openFailSkip--
+		failNow = false
+	} else {
+		s.openFailOnce = false
+	}
 	s.mu.Unlock()
 	if failNow {
 		return nil, &hackpadfs.PathError{Op: "open", Path: name, Err: errInjected}
@@ -973,6 +979,43 @@ func runC11(r *Rng, n int, replay string) {
 					}
 				}
 			}()
+			emit(c)
+		}
+		// the same while the fill hands over: a source whose handles cannot seek makes the cache re-open the fresh copy
+		// from its store, and THAT open fails
+		if size > 0 && id < n {
+			src := mkSrc()
+			src.noSeek = true
+			st, store := newStore(minimal)
+			cfs, _ := cache.NewReadOnlyFS(src, store, cache.ReadOnlyOptions{})
+			c := &Case{ID: id, Kind: "store-reopen-fails", Trivial: true}
+			id++
+			c.Cells = []string{"store-reopen-fails"}
+			hdr := fmt.Sprintf("file %q of %d bytes, source handles cannot seek; the cache store's second Open (of the fresh copy) fails", name, size)
+			c.Text = []string{hdr}
+			st.mu.Lock()
+			st.openFailOnce, st.openFailSkip = true, 1
+			st.mu.Unlock()
+			for round := 0; round < 2; round++ {
+				func() {
+					defer func() {
+						if e := recover(); e != nil {
+							c.fail(fmt.Sprintf("%s: open %d panicked: %v", hdr, round+1, e), "store-reopen-fails:panic")
+						}
+					}()
+					f, err := cfs.Open(name)
+					switch {
+					case err == nil && f == nil:
+						c.fail(fmt.Sprintf("%s: open %d returned a nil handle and a nil error", hdr, round+1), "store-reopen-fails:nil-nil")
+					case err == nil:
+						got, rerr := readAllOf(f)
+						closeIf(f)
+						if rerr != nil || !bytes.Equal(got, data) {
+							c.fail(fmt.Sprintf("%s: open %d succeeded with %d of %d bytes", hdr, round+1, len(got), len(data)), "store-reopen-fails:partial")
+						}
+					}
+				}()
+			}
 			emit(c)
 		}
 		// a failing fill while a second opener is already waiting for the same name: the clean-up of the partial copy
